@@ -592,8 +592,9 @@ def order_cases(direct, cli):
     evenly among the direct ones, so that a watchdog timeout never sits at the tail of a run"""
     def weight(c):
         if c["kind"] == "cli":
-            return 0 if "cli:doc-loop" in c.get("features", []) else 2
-        if c["d"] != 0 and len(c["goals"]) >= 3:
+            fs = c.get("features", [])
+            return 0 if ("cli:doc-loop" in fs or "cli:fibonacci+lucas2" in fs) else 2
+        if c["d"] != 0:
             return 1
         return 2
     heavy = [c for c in cli + direct if weight(c) < 2]
@@ -1056,21 +1057,22 @@ def irrational_coefficients():
 KEY_EX = "groebner-ex-domain-irrational-coefficients"
 
 
-def attribute(diag, fixed_by_algebraic_domain=None):
-    """mechanism key for a wrong / missing invariant, from diagnostic predicates:
+def attribute(diag, fixed_by_algebraic_domain=None, need_bad_vector=False):
+    """mechanism key for a wrong / missing invariant, from diagnostic predicates (need_bad_vector: an UNSOUND invariant
+       is attributed to the lattice only if a returned lattice vector really violates prod b^v = 1):
        - all exponent bases rational and the rational kernel of the prime-exponent matrix is not integral (Polar truncates
          it with astype(int))                                                      -> KEY_LATTICE
        - the returned lattice is multiplicatively valid, the polynomials given to groebner have irrational coefficients
          (EX domain) and repeating the elimination over QQ<alpha> does not show the defect (or could not be done in the
          budget)                                                                   -> KEY_EX"""
-    if diag.get("all_rational") and diag.get("nonintegral"):
+    if diag.get("all_rational") and diag.get("nonintegral") and (diag.get("bad_vectors") or not need_bad_vector):
         return KEY_LATTICE
     if not diag.get("bad_vectors") and diag.get("irrational_coefficients") and fixed_by_algebraic_domain is not False:
         return KEY_EX
     return None
 
 
-def diagnose_and_key(names, fixed_fn):
+def diagnose_and_key(names, fixed_fn, need_bad_vector=False):
     """-> (key, diag, fixed).  fixed_fn(recomputed_basis) -> bool tells whether the elimination repeated over QQ<alpha>
     is free of the observed defect (only evaluated when the EX-domain predicate applies)."""
     diag = lattice_diagnosis()
@@ -1082,7 +1084,7 @@ def diagnose_and_key(names, fixed_fn):
                 fixed = bool(fixed_fn(rec))
             except Exception:
                 fixed = None
-    return attribute(diag, fixed), diag, fixed
+    return attribute(diag, fixed, need_bad_vector), diag, fixed
 
 
 def diag_text(diag, fixed):
@@ -1123,7 +1125,10 @@ def _t_squares(rng):
 
 
 def _t_sums(rng):
-    return ("i = 0\ns = 0\nq = 0\nwhile true:\n    i = i + 1\n    s = s + i\n    q = q + i**2\nend\n", None, ["power-sums", "poly"])
+    a = rng.choice([1, 2, 3])
+    c = rng.choice([1, 1, 2, -1])
+    i0 = rng.choice([0, 0, 1, 2])
+    return (f"i = {i0}\ns = 0\nq = 0\nwhile true:\n    i = i + {a}\n    s = s + {c}*i\n    q = q + i**2\nend\n", None, ["power-sums", "poly"])
 
 
 def _t_geo(rng):
@@ -1165,7 +1170,10 @@ def _t_fib_lucas(rng):
 
 
 def _t_alt(rng):
-    return ("z = 1\nx = 0\nwhile true:\n    z = -z\n    x = x + z\nend\n", None, ["alternating", "base:-1"])
+    z0 = rng.choice([1, 2, -1, 3])
+    k = rng.choice([1, 2, 3])
+    x0 = rng.choice([0, 1, 5])
+    return (f"z = {z0}\nx = {x0}\nwhile true:\n    z = -z\n    x = x + {k}*z\nend\n", None, ["alternating", "base:-1"])
 
 
 def _t_rot(rng):
@@ -1174,23 +1182,30 @@ def _t_rot(rng):
 
 
 def _t_jordan(rng):
-    b = rng.choice([2, 3])
-    return (f"x = 0\ny = 1\nwhile true:\n    x = {b}*x + y\n    y = {b}*y\nend\n", None, ["jordan-block", "n*b^n"])
+    b = rng.choice(["2", "3", "1/2", "-2", "4"])
+    x0, y0 = rng.choice([(0, 1), (1, 1), (2, 3), (0, 2)])
+    return (f"x = {x0}\ny = {y0}\nwhile true:\n    x = {b}*x + y\n    y = {b}*y\nend\n", None, ["jordan-block", "n*b^n"])
 
 
 def _t_pell(rng):
-    return ("x = 1\ny = 0\nwhile true:\n    x, y = 3*x + 4*y, 2*x + 3*y\nend\n", None, ["pell", "field:sqrt(2)"])
+    upd, f = rng.choice([("3*x + 4*y, 2*x + 3*y", "sqrt(2)"), ("2*x + 3*y, x + 2*y", "sqrt(3)"), ("x + 2*y, x + y", "sqrt(2)"),
+                         ("9*x + 20*y, 4*x + 9*y", "sqrt(5)")])
+    x0, y0 = rng.choice([(1, 0), (1, 1), (3, 2), (2, 0)])
+    return (f"x = {x0}\ny = {y0}\nwhile true:\n    x, y = {upd}\nend\n", None, ["pell", f"field:{f}"])
 
 
 def _t_lin(rng):
-    a = rng.choice([1, 2, 3])
-    b = rng.choice([1, 2, -1])
-    return (f"x = 0\ny = {b}\nz = 1\nwhile true:\n    x = x + y\n    y = y + {a}\n    z = 2*z\nend\n", None, ["poly+exp"])
+    a = rng.choice([1, 2, 3, -2])
+    b = rng.choice([1, 2, -1, 0])
+    m = rng.choice(["2", "3", "1/2", "-1"])
+    z0 = rng.choice([1, 2, 5])
+    return (f"x = 0\ny = {b}\nz = {z0}\nwhile true:\n    x = x + y\n    y = y + {a}\n    z = {m}*z\nend\n", None, ["poly+exp"])
 
 
 def _t_normal(rng):
-    goals = rng.choice([["E(x)", "c2(x)", "E(y)"], ["E(x**2)", "E(y)", "E(x)"]])
-    return ("x = 0\ny = 0\nwhile true:\n    g = Normal(1, 2)\n    x = x + g\n    y = y + 3\nend\n", goals, ["normal-walk"])
+    goals = rng.choice([["E(x)", "c2(x)", "E(y)"], ["E(x**2)", "E(y)", "E(x)"], ["E(x)", "k2(x)", "k3(x)"]])
+    mu, var, st = rng.choice([1, 2, -1, 0]), rng.choice([1, 2, 4]), rng.choice([1, 3, -2])
+    return (f"x = 0\ny = 0\nwhile true:\n    g = Normal({mu}, {var})\n    x = x + g\n    y = y + {st}\nend\n", goals, ["normal-walk"])
 
 
 TEMPLATES = [_t_fib_lucas, _t_fib, _t_squares, _t_sums, _t_geo, _t_geo, _t_walks, _t_walks, _t_growth, _t_bern, _t_alt, _t_rot, _t_jordan,
@@ -1210,11 +1225,18 @@ DOC_SKIP = {"markov-triples-random.prob"}
 def gen_cli(seed_fn, count, tier):
     """count template cases + the documentation loops; seed_fn(i) -> per-case seed"""
     cases = []
+    seen = set()
     for i in range(count):
         cs = seed_fn(10_000 + i)
         rng = random.Random(cs)
-        tpl = TEMPLATES[i % len(TEMPLATES)] if i < 2 * len(TEMPLATES) else rng.choice(TEMPLATES)
-        text, goals, feats = tpl(rng)
+        for _attempt in range(6):
+            tpl = TEMPLATES[i % len(TEMPLATES)] if (i < 2 * len(TEMPLATES) and _attempt == 0) else rng.choice(TEMPLATES)
+            text, goals, feats = tpl(rng)
+            if (text, str(goals)) not in seen:
+                break
+        else:
+            continue
+        seen.add((text, str(goals)))
         cases.append({"id": f"cli-{tpl.__name__[3:]}-{cs}", "kind": "cli", "text": text, "goals": goals, "params": {},
                       "features": ["cli"] + ["cli:" + f for f in feats]})
     for path in sorted(glob.glob(os.path.join(REPO, "documentation", "loops", "*.prob"))):
